@@ -93,6 +93,7 @@ class SmallBytes:
 
     def __init__(s, val):
         s.val = val
+        s.ln = bv64(64)       # nominal length so that it can sit in a Buffer as one chunk
 
 
 class WeakV:
@@ -317,6 +318,34 @@ def install(x, rkyv_table=None):
     def m_small_deserialize(x, r, a, e):
         return Ok(x.clone(r.val))
 
+    def f_check_archived_root(x, a, e):
+        """validated decode: Ok(value) on a complete header / serialised map; on other bytes validation may fail, or
+        succeed with arbitrary field values (a damaged header that still is a well-formed archive)"""
+        targ = e['func']['path']['segs'][-1].get('args') or ''
+        b = x.deref(a[0])
+        if isinstance(b, SmallBytes):
+            return Ok(b)
+        if isinstance(b, Buffer) and len(b.chunks) == 1 and isinstance(b.chunks[0], SmallBytes):
+            return Ok(b.chunks[0])
+        if 'Metadata' in targ:
+            toks = [t for c in b.chunks if isinstance(c, Bytes) for t in c.b]
+            if toks and len(b.chunks) == 1 and all(isinstance(t, tuple) and t[0] == 'rkyv' and t[1] is toks[0][1] and t[2] == i
+                                                 for i, t in enumerate(toks)):
+                m = toks[0][1]
+                if len(toks) == rkyv_len(len(x.deref(m.f['owned_by']).v.encode())):
+                    return Ok(m)
+            hook = getattr(x, 'corrupt_header', None)
+            if hook:
+                return hook(b, e)
+            # garbage (payload bytes, torn header): validation rejects it, or it happens to be a well-formed archive
+            if x.flip('garbage_header_validates'):
+                x.path_flags.add('imprecise')
+                raise Incomplete('imprecise: bytes that are not a written header validate as a header (line %s)' % e.get('line'))
+            return Err(PStr('validation failed'))
+        if 'HashMap' in targ:
+            return Err(PStr('validation failed'))
+        raise Unsupported('check_archived_root::%s' % targ)
+    fn['rkyv::check_archived_root'] = f_check_archived_root
     fn['rkyv::to_bytes'] = f_to_bytes
     fn['rkyv::archived_root'] = f_archived_root
     fn['AlignedVec::with_capacity'] = lambda x, a, e: Buffer([])
